@@ -11,7 +11,7 @@ log=$d/verify.log; : > $log
 {
 echo "base commit: $(git -C $wt rev-parse --short HEAD)"
 git -C $wt apply $d/patch.diff || { echo "PATCH DOES NOT APPLY"; }
-( cd $wt && cargo test --workspace --no-fail-fast --offline > $d/verify_suite.log 2>&1 ); s=$?
+( cd $wt && cargo test --workspace --no-fail-fast --offline --lib --bins --tests > $d/verify_suite.log 2>&1 ); s=$?
 pass=$(grep -E "^test result" $d/verify_suite.log | awk '{p+=$4; f+=$6} END {print p" passed "f" failed"}')
 echo "suite with change: exit=$s $pass"
 bash $d/run_demo.sh $wt > $d/verify_demo_with.log 2>&1; a=$?
